@@ -44,6 +44,7 @@ Init(cfg) ==
      connCause |-> [c |-> {}, s |-> {}],
      faulted |-> [c |-> FALSE, s |-> FALSE],
      panicked |-> [c |-> FALSE, s |-> FALSE],
+     resetS |-> {},          \* stream ids reset / abandoned by either application or by a RST_STREAM
      v |-> <<>>, hits |-> EmptyMap]
 
 Viol(a, rule, l, ep, sid, info) ==
@@ -79,9 +80,9 @@ Submit(a, e, l) ==
     ELSE IF c = "send_trailers" /\ ok
     THEN SetM(a, ep, t, [x EXCEPT !.trl = e.hdr, !.trlSub = TRUE, !.eosSub = TRUE])
     ELSE IF c = "send_reset"
-    THEN SetM(a, ep, t, [x EXCEPT !.cut = TRUE])
+    THEN [SetM(a, ep, t, [x EXCEPT !.cut = TRUE]) EXCEPT !.resetS = a.resetS \cup {e.sid}]
     ELSE IF c = "drop_send" /\ ~x.eosSub
-    THEN SetM(a, ep, t, [x EXCEPT !.cut = TRUE])
+    THEN [SetM(a, ep, t, [x EXCEPT !.cut = TRUE]) EXCEPT !.resetS = a.resetS \cup {e.sid, x.sid}]
     ELSE a
 
 \* ---- deliveries (receiver side); the sender is the other endpoint --------------
@@ -173,7 +174,8 @@ Causes(a, e) ==
     IF e.t = "in" /\ e.f.ty = "RST_STREAM" /\ e.f.bad = ""
     THEN LET ep == e.ep
              c == IF e.f.ch < 32768 THEN e.f.ch * 65536 + e.f.cl ELSE -2
-         IN [a EXCEPT !.cause[ep] = Put(a.cause[ep], e.f.sid, Get(a.cause[ep], e.f.sid, {}) \cup {<<"reset", c>>})]
+         IN [a EXCEPT !.cause[ep] = Put(a.cause[ep], e.f.sid, Get(a.cause[ep], e.f.sid, {}) \cup {<<"reset", c>>}),
+                      !.resetS = a.resetS \cup {e.f.sid}]
     ELSE IF e.t = "in" /\ e.f.ty = "GOAWAY" /\ e.f.bad = ""
     THEN LET c == IF e.f.ch < 32768 THEN e.f.ch * 65536 + e.f.cl ELSE -2
          IN [a EXCEPT !.connCause[e.ep] = a.connCause[e.ep] \cup {<<"goaway", c>>}]
